@@ -19,7 +19,8 @@ vars == <<file, script, md5s, pc, reqs, status, prior, script0, md5s0, cbLeak>>
 
 \* corrupted bodies come in three kinds: other bytes, a truncated transfer, an EMPTY body (200 with no content)
 Resp == {"good", "corrupt", "trunc", "empty", "e404"}
-Md5Modes == {"correct", "wrong", "missing"}
+\* a wrong checksum is another well-formed one ("wrong") or a mangled text that is not 32 hex digits ("mangled")
+Md5Modes == {"correct", "wrong", "mangled", "missing"}
 RECURSIVE Seqs(_, _)
 Seqs(S, len) == IF len = 0 THEN {<<>>} ELSE {<<x>> \o r : x \in S, r \in Seqs(S, len - 1)}
 
